@@ -34,10 +34,13 @@ import (
 
 	"github.com/VKCOM/tl/pkg/rpc"
 	"github.com/pierrec/lz4"
+	"pgregory.net/rand"
 
 	"github.com/VKCOM/statshouse/internal/agent"
 	"github.com/VKCOM/statshouse/internal/aggregator"
 	"github.com/VKCOM/statshouse/internal/compress"
+	"github.com/VKCOM/statshouse/internal/data_model"
+	"github.com/VKCOM/statshouse/internal/format"
 	"github.com/VKCOM/statshouse/internal/data_model/gen2/tlstatshouse"
 	"github.com/VKCOM/statshouse/internal/verifx"
 )
@@ -238,6 +241,7 @@ type caseRun struct {
 	ballastUnits, ballastBytes, unit, row, limit int // historic memory budget: model units <-> real bytes
 	diskOk bool
 	longOutage bool
+	raceCase bool
 	trueUsedPrev, counterPrev int // before the current op: real queued bytes + ballast, and the agent's counter
 	accountingReported bool
 	vt     int
@@ -503,8 +507,9 @@ func (c *caseRun) checkAnswer(a *ans, r int) {
 		}
 		if !legit {
 			c.viol("reject-inside-window", "replica %d discarded second %d as %s while its window is [%d..%d] (historic window %d)", r, a.sec, a.why, oldest, newest, window)
+		} else {
+			c.excused[a.sec] = "rejected:" + a.why
 		}
-		c.excused[a.sec] = "rejected:" + a.why
 	default:
 		c.viol("ack-unknown-reason", "replica %d answered request %d (second %d) with discard for an unlisted reason %q", r, a.rid, a.sec, a.why)
 	}
@@ -667,22 +672,41 @@ func (c *caseRun) doTick(r int, now int, kind chKind) {
 			continue
 		}
 		g.Insert(rb)
-		log := c.ch.take()
-		if len(log) != 1 {
-			c.fatal = fmt.Sprintf("goInsert made %d HTTP requests for one ready bucket", len(log))
+		if !c.insertDone(rb, kind) {
 			return
 		}
-		c.obs("ins bt=%d secs=%s ok=%d", c.rel(rb.Time), verifx.List(log[0].secs), b01(log[0].ok))
-		if log[0].ok {
-			for _, s := range log[0].secs {
-				c.insertedOK[s]++
-			}
-		}
-		c.stat("insert." + kind.name)
 	}
+	c.collectAnswers(r, nil)
+}
+
+// one goInsert iteration finished: exactly one INSERT reached the fake ClickHouse
+func (c *caseRun) insertDone(rb *aggregator.VerifC01Ready, kind chKind) bool {
+	log := c.ch.take()
+	if len(log) != 1 {
+		c.fatal = fmt.Sprintf("goInsert made %d HTTP requests for one ready bucket", len(log))
+		return false
+	}
+	c.obs("ins bt=%d secs=%s ok=%d", c.rel(rb.Time), verifx.List(log[0].secs), b01(log[0].ok))
+	if log[0].ok {
+		for _, s := range log[0].secs {
+			c.insertedOK[s]++
+		}
+	}
+	c.stat("insert." + kind.name)
+	return true
+}
+
+// the long-poll answers replica r produced (plus `extra`, an answer given at once in the same step), by request id
+func (c *caseRun) collectAnswers(r int, extra *ans) {
+	g := c.aggs[r]
 	as := g.Answers()
 	sort.Slice(as, func(i, j int) bool { return as[i].Rid < as[j].Rid })
+	printedExtra := extra == nil
 	for _, va := range as {
+		if !printedExtra && extra.rid < va.Rid {
+			c.printAns(extra)
+			printedExtra = true
+		}
 		sec := 0
 		if f := c.findFlight(va.Rid); f != nil {
 			sec = f.sec
@@ -696,6 +720,99 @@ func (c *caseRun) doTick(r int, now int, kind chKind) {
 		c.checkAnswer(a, r)
 		c.stat("tick.answer." + a.why)
 	}
+	if !printedExtra {
+		c.printAns(extra)
+	}
+}
+
+// replica r: the ticker fires at now1 and the inserter of the first ready bucket takes its oldestTime snapshot; it is then
+// held up (the harness holds the bucket mutex the inserter needs next) while the ticker fires again at now2 and request rid
+// (if it is a historic request for this replica) is handled; then the inserter goes on and pops historic buckets with its
+// old snapshot; the other ready buckets are inserted afterwards.
+func (c *caseRun) doRace(r int, now1, now2 int, rid int64, kind chKind) {
+	ok := kind.accepted()
+	c.op("race %d %d %d %d %d %s", r, now1, now2, rid, b01(ok), kind.name)
+	g := c.aggs[r]
+	if g == nil {
+		c.obs("none")
+		return
+	}
+	c.ch.mu.Lock()
+	c.ch.kind = kind
+	c.ch.mu.Unlock()
+	if !ok {
+		c.nFaults++
+	}
+	c.stat("race")
+	foreign := func(rbs []*aggregator.VerifC01Ready) {
+		for _, rb := range rbs {
+			if !rb.Ours && rb.Contributors != 0 {
+				c.viol("foreign-bucket-has-contributors", "replica %d holds %d contributors in bucket %d which it never inserts", r, rb.Contributors, c.rel(rb.Time))
+			}
+		}
+	}
+	ready1 := g.Advance(c.abs(now1))
+	foreign(ready1)
+	first := -1
+	for i, rb := range ready1 {
+		if rb.Ours {
+			first = i
+			break
+		}
+	}
+	var resume func()
+	if first >= 0 {
+		var err error
+		if resume, err = g.InsertBegin(ready1[first]); err != nil {
+			c.fatal = err.Error()
+			return
+		}
+	}
+	ready2 := g.Advance(c.abs(now2))
+	foreign(ready2)
+	// the arrival
+	var extra *ans
+	if p, meta := c.wire[rid], c.wireMeta[rid]; p != nil && meta.replica == r && meta.historic {
+		delete(c.wire, rid)
+		delete(c.wireMeta, rid)
+		parked, imm := g.Handle(rid, p.body[4:])
+		if parked {
+			where, bt := g.Where(rid)
+			c.obs("parked %s %d", where, c.rel(bt))
+			c.parkedAt[rid] = r
+			c.stat("race.arrive.parked-" + where)
+		} else {
+			extra = c.mkAns(rid, meta.sec, imm)
+			c.answers[rid] = extra
+			c.checkAnswer(extra, r)
+			c.stat("race.arrive." + extra.why)
+		}
+	} else {
+		c.obs("none")
+	}
+	if first >= 0 {
+		resume()
+		if !c.insertDone(ready1[first], kind) {
+			return
+		}
+		for _, rb := range ready1[first+1:] {
+			if rb.Ours {
+				g.Insert(rb)
+				if !c.insertDone(rb, kind) {
+					return
+				}
+			}
+		}
+	}
+	for _, rb := range ready2 {
+		if rb.Ours {
+			g.Insert(rb)
+			if !c.insertDone(rb, kind) {
+				return
+			}
+		}
+	}
+	c.collectAnswers(r, extra)
 }
 
 func (c *caseRun) deliver(opName string, f *flight, a answer, acked bool) {
@@ -1002,6 +1119,45 @@ func (c *caseRun) run(quickOps int) {
 	c.op("new %d %d %d %d %d %d", b01(c.disk), b01(c.save), B-agentRel, window, c.sw, c.vt)
 	c.state()
 	step := func() { c.state() }
+	if c.raceCase {
+		// the window of one replica moves on while its inserter is held up, and a historic request for a second that has just
+		// left (or is about to leave) the window arrives in between; an older historic bucket already waits at that replica
+		r := c.r.Intn(3)
+		oldest := c.rel(c.aggs[r].Window()[0])
+		t0 := oldest - 6
+		for t0%3 != r {
+			t0--
+		}
+		used[t0] = true
+		c.doOverflow(t0)
+		step()
+		c.doPop(B - agentRel)
+		step()
+		for _, rid := range c.sortedKeys(c.wire) {
+			c.doRecv(rid)
+			step()
+		}
+		t := oldest + c.r.Intn(10)
+		for t%3 != r {
+			t++
+		}
+		used[t] = true
+		c.doOverflow(t)
+		step()
+		c.doPop(B - agentRel)
+		step()
+		var rid int64
+		for _, k := range c.sortedKeys(c.wire) {
+			rid = k
+		}
+		now1 := oldest + c.sw + 1 + c.r.Intn(4)
+		now2 := now1 + 1 + c.r.Intn(6)
+		c.doRace(r, now1, now2, rid, chKinds[0])
+		step()
+		if now2 > c.vt {
+			c.vt = now2
+		}
+	}
 	if c.longOutage {
 		// a long aggregator outage: about 2*MaxConveyorDelay seconds pile up on disk, the agent process is restarted, reads
 		// part of the backlog back (at start-up and one record per popped second), and is restarted again before anything is
@@ -1031,7 +1187,7 @@ func (c *caseRun) run(quickOps int) {
 		c.ensureReplica()
 		wire := c.sortedKeys(c.wire)
 		answers := c.answerKeys()
-		switch c.r.Pick(14, 5, 16, 16, 14, 5, 10, 3, 2, 2, 5, 2, 1, 1) {
+		switch c.r.Pick(14, 5, 16, 16, 14, 5, 10, 3, 2, 2, 5, 2, 1, 1, 2) {
 		case 0:
 			c.doRecent(c.freshSecond(used))
 		case 1:
@@ -1094,6 +1250,17 @@ func (c *caseRun) run(quickOps int) {
 			c.vt += window + 5 + c.r.Intn(30)
 			c.stat("clock-jump")
 			continue
+		case 14:
+			r := c.r.Intn(3)
+			var rid int64
+			for _, k := range wire {
+				if m := c.wireMeta[k]; m != nil && m.historic && m.replica == r {
+					rid = k
+				}
+			}
+			c.vt += c.r.Intn(3)
+			n1 := c.vt + c.r.Intn(2)
+			c.doRace(r, n1, n1+1+c.r.Intn(4), rid, chKinds[0])
 		case 13:
 			for r := 0; r < 3; r++ {
 				if c.aggs[r] == nil {
@@ -1191,6 +1358,7 @@ func runCase(h *verifx.H, seed uint64, i int, nOps int) *caseRun {
 	if c.longOutage {
 		c.disk = true
 	}
+	c.raceCase = !c.longOutage && r.Chance(1, 8)
 	c.save = r.Chance(1, 2)
 	c.sw = 3 + r.Intn(3)
 	c.cl = &fakeClient{c: c}
@@ -1259,6 +1427,10 @@ func main() {
 			}
 			fmt.Println("rows", tm+1, "lz4<raw", less, "lz4==raw", eq, "lz4>raw", more)
 		}
+		return
+	}
+	if h.Mode == "oversize" {
+		oversize(h)
 		return
 	}
 	if h.Mode == "wakeup" {
@@ -1504,6 +1676,19 @@ func gen() {
 	}
 	fmt.Printf("/-- functions of agent_shard_send.go that call s.cond.Signal() / s.cond.Broadcast(), source order -/\n")
 	fmt.Printf("def condSignalSites : List String := %s\n", leanList(sites))
+	// sampleBucket: is the clamp of the per-second budget to MaxUncompressedBucketSize/2 a statement of the function body
+	// itself (it then applies to every budget source: --shard-sample-budget override and the derived budget alike)?
+	clampTop := false
+	if fd := funcDecl(sendF, "sampleBucket"); fd != nil {
+		for _, st := range fd.Body.List {
+			if is, ok := st.(*ast.IfStmt); ok && strings.Contains(render(fset, is.Cond), "remainingBudget > data_model.MaxUncompressedBucketSize/2") {
+				clampTop = true
+			}
+		}
+	}
+	fmt.Printf("/-- sampleBucket clamps remainingBudget to MaxUncompressedBucketSize/2 at the top level of its body (after BOTH budget sources) -/\n")
+	fmt.Printf("def sampleBudgetClampTopLevel : Bool := %v\n", clampTop)
+	fmt.Printf("def maxUncompressedBucketSize : Nat := %d\n", cc.MaxUncompressedBucketSize)
 	// sizes of the seconds the harness generates (stored frame: independent of the timestamp's digits)
 	gc := &caseRun{base: 1700000000, stats: map[string]int64{}}
 	u0 := gc.mkCbd(B).Len()
@@ -1675,6 +1860,74 @@ func wakeup(h *verifx.H) {
 		// deferred Unlock (fatal "unlock of unlocked mutex"); production never cancels cancelSendsCtx either
 		_ = cancel
 		_ = os.RemoveAll(dir)
+	}
+	h.Done()
+}
+
+// ---------------------------------------------------------------- -mode=oversize: one second with more rows than the aggregator takes
+
+// A shard with an explicit --shard-sample-budget far above the aggregator's limit receives more than MaxUncompressedBucketSize
+// of serialized rows in one second. The bucket goes through the REAL preProcess (sampleBucket -> WriteTL1Boxed ->
+// CompressAndFrame -> sendToSenders), the real historic sender and the real aggregator handler. Whatever the sampler does
+// with the budget, the aggregator must not answer "discard" for it: the agent would erase a second nobody inserted.
+func oversize(h *verifx.H) {
+	out := os.Stdout
+	limit := aggregator.VerifC01GetConsts().MaxUncompressedBucketSize
+	for i := 0; i < h.N; i++ {
+		fmt.Fprintf(out, "@case %d %d\n", i, h.Seed)
+		now := uint32(time.Now().Unix()) + 120 // building the rows takes seconds: keep the second fresh for the recent sender
+		var body []byte
+		sink := &sinkClient{got: &body}
+		a, err := agent.VerifC01NewAgent("", false, window, sink)
+		if err != nil {
+			panic(err)
+		}
+		a.SetShardSampleBudget(64 << 20)
+		rg := verifx.NewRng(h.Seed*977 + uint64(i))
+		bucket := &data_model.MetricsBucket{Time: now}
+		rnd := rand.New(rg.U64())
+		est := 0
+		rows := 0
+		for est < limit+limit/4 { // 12.5 MiB by the agent's own size estimate
+			key := data_model.Key{Timestamp: now, Metric: int32(1000 + rows%50)}
+			for k := 0; k < 16; k++ {
+				key.Tags[k] = int32(rg.U64()>>33) | 1
+			}
+			meta := &format.MetricMetaValue{MetricID: key.Metric, EffectiveResolution: 1, EffectiveWeight: 1}
+			item, _ := bucket.GetOrCreateMultiItem(&key, meta, nil)
+			item.Tail.AddCounter(rnd, float64(1+rows%7))
+			est += item.Key.TLSizeEstimate(now) + item.TLSizeEstimate()
+			rows++
+		}
+		a.PreProcess(bucket, rg.U64())
+		cbd, ok := a.PopHistoric(now + 200)
+		if !ok {
+			fmt.Fprintf(out, "! sig=silently-lost the second of %d rows did not reach the historic queue after preProcess\n", rows)
+			continue
+		}
+		a.RecentOne(context.Background(), cbd) // a recent sender: the sink client records the request and fails the rpc
+		ch := newFakeCH(now)
+		g := aggregator.VerifC01NewAgg(sh2, int32(now%3)+1, 3, strings.TrimPrefix(ch.srv.URL, "http://"))
+		g.Advance(now + 2)
+		if len(body) < 4 {
+			fmt.Fprintf(out, "! sig=silently-lost the historic sender did not send the second (%d bytes framed)\n", cbd.Len())
+			ch.srv.Close()
+			continue
+		}
+		parked, imm := g.Handle(1, body[4:])
+		fmt.Fprintf(out, "# oversize: %d rows, agent estimate %d MiB, limit %d MiB, parked=%v\n", rows, est>>20, limit>>20, parked)
+		if !parked {
+			c := &caseRun{base: now, stats: map[string]int64{}}
+			an := c.mkAns(1, B, imm)
+			if an.discard {
+				fmt.Fprintf(out, "! sig=discard-of-valid-bucket the aggregator answered 'discard' (%s) for a second the agent's own sampleBucket/preProcess produced from %d accepted rows with --shard-sample-budget above the aggregator's %d byte limit: the agent erases a second that was never inserted\n", an.why, rows, limit)
+			} else {
+				fmt.Fprintf(out, "# oversize: answered at once without discard (%s)\n", an.why)
+			}
+		} else {
+			fmt.Fprintf(out, "@nt oversize-second-accepted\n")
+		}
+		ch.srv.Close()
 	}
 	h.Done()
 }
